@@ -2,5 +2,8 @@
 EXTENDS PcDelta, Json
 P0 == { <<0, 1>> }
 P3 == { <<0, 1>>, <<1, 2>>, <<1, 1>> }
+HomoClosedFormOK == \A a, b \in {0, 1} : \A n, m \in 0..5 :
+    Lev([i \in 1..n |-> a], [i \in 1..m |-> b]) = HomoDist(<<a, n>>, <<b, m>>)
+HomoClosedForm == (step = "start") => HomoClosedFormOK
 EmitCase == Done => PrintT(ToJson([inp |-> inp, sub |-> sub, sub2 |-> sub2, hist |-> hist, res |-> res]))
 =============================================================================
